@@ -3,8 +3,5 @@ CONSTANTS
   N = @N@
   MaxGap = 3
 CONSTRAINT Progress
-INVARIANT NoJumpAfterRJ
-INVARIANT FilledContinuesLeft
-INVARIANT NoJumpBetweenValid
 POSTCONDITION Accepted
 CHECK_DEADLOCK FALSE
